@@ -257,6 +257,7 @@ class ActivityAnalyzer(transformer.Base):
     self._in_aug_assign = False
     self._in_annotation = False
     self._track_annotations_only = False
+    self._in_named_expr_target = False
 
   @property
   def _in_constructor(self):
@@ -313,7 +314,8 @@ class ActivityAnalyzer(transformer.Base):
 
     if isinstance(node.ctx, ast.Store):
       # In comprehensions, modified symbols are the comprehension targets.
-      if self.state[_Comprehension].level > 0:
+      if (self.state[_Comprehension].level > 0 and
+          not self._in_named_expr_target):
         self.state[_Comprehension].targets.add(qn)
         return
 
@@ -439,6 +441,15 @@ class ActivityAnalyzer(transformer.Base):
     if getattr(node, 'annotation', None):
       node.annotation = self._process_annotation(node.annotation)
     self._track_symbol(node)
+    return node
+
+  def visit_NamedExpr(self, node):
+    # The target of an assignment expression binds in the enclosing function,
+    # even when it is written inside a comprehension.
+    node.value = self.visit(node.value)
+    self._in_named_expr_target = True
+    node.target = self.visit(node.target)
+    self._in_named_expr_target = False
     return node
 
   def visit_alias(self, node):
